@@ -2,12 +2,17 @@
   No-panic lemma of the block-quote rule (`Model/Block.lean` §blockquote.rs): under the invariant
   `BInv` (`BlockTotalCore.lean`) the rule fails at most with `.fuel`.
 
+    bqOptSpace_total  `indent_after_marker -= 1` does not underflow
     bqRewrite_val     the value of the rewriting of an entry whose text starts with `>`
     bqRewrite_total   … hence its totality
-    bqRewrite_inv     … and what the scan needs of the rewritten entry
+    bqRewrite_inv     … and what `BInv.setOff` needs of the rewritten entry
+    bq_rewrite_step, bq_indent_step   the three assignments to the table keep `BInv`
     bqScan_np         the scan does not panic
-    bqScan_inv        the state the scan returns satisfies the invariant again
+    bqScan_inv        the state the scan returns satisfies `BInv` again
+    bq_scan_facts, bq_tok_facts       the bookkeeping of the rule behind the scan / the nested call
     blockquote_np     the rule
+
+  Nothing is left open.  `IndentOk` (real mode only) is necessary: see the last two examples.
 -/
 import MdIt.Lemmas.BlockTotalCore
 
@@ -16,7 +21,7 @@ open MdIt.Lines (LineOffset)
 
 /-! ## the rewriting of one entry -/
 
-theorem byteLen_gt : Lines.byteLen ['>'] = 1 := by decide
+theorem bq_byteLen_gt : Lines.byteLen ['>'] = 1 := by decide
 
 /-- `indent_after_marker -= 1` cannot underflow: a blank behind the `>` has a positive width -/
 theorem bqOptSpace_total {run rest : List Char} (hrest : ∀ c r, rest = c :: r → ¬ (c = ' ' ∨ c = '\t'))
@@ -46,7 +51,7 @@ theorem bqRewrite_val {src : List Char} {o : LineOffset} (hl : LineOk src o) {re
                       firstNonspace := Lines.byteLen a + 1 + run.length + o.lineStart }, le) := by
   obtain ⟨a, run, rest2, rfl, hrun, hrest, h1, h3, h4, h5, hfi, hsl⟩ :=
     rewrite_shape (mid := ['>']) hl hb
-  rw [byteLen_gt] at hfi hsl
+  rw [bq_byteLen_gt] at hfi hsl
   have hrel : psub (o.firstNonspace + 1) o.lineStart = .ok (Lines.byteLen a + 1) := by
     unfold psub; rw [if_pos (by omega)]; congr 1; omega
   have hlen : psub o.lineEnd o.lineStart = .ok (Lines.byteLen (a ++ ['>'] ++ run ++ rest2)) := by
@@ -77,5 +82,224 @@ theorem bqRewrite_inv {src : List Char} {o o' : LineOffset} {rest : List Char} {
   simp only [Except.ok.injEq, Prod.mk.injEq] at h
   rw [← h.1]
   exact wsAscii_rewrite ha h3 (mid := ['>']) (by intro c hc; simp at hc; subst hc; decide) hrun hsl _
+
+
+/-! ## the scan -/
+
+theorem BInv.bqLine {S : BState} (hI : BInv S) (m : Nat) : BInv { S with line := m } :=
+  hI.congr rfl rfl hI.lineMax
+
+/-- the `>` arm keeps the invariant -/
+theorem bq_rewrite_step {S S1 : BState} {m : Nat} {o : LineOffset} {rest : List Char}
+    {r : LineOffset × Bool} (hI : BInv S) (ho : S.off m = .ok o)
+    (hline : S.getLine m = .ok ('>' :: rest)) (hr : bqRewrite S.src o rest = .ok r)
+    (hs : S.setOff m r.1 = .ok S1) : BInv S1 := by
+  have ho' := off_ok ho
+  obtain ⟨h1, h2, h3⟩ := bqRewrite_inv (hI.table _ _ ho') (hI.ascii _ _ ho') (getLine_eq ho' hline)
+    (o' := r.1) (le := r.2) hr
+  exact hI.setOff hs ho' h1 h2 h3
+
+/-- the two `indent_nonspace`-only assignments keep the invariant -/
+theorem bq_indent_step {S S1 : BState} {m : Nat} {o : LineOffset} (x : Int) (hI : BInv S)
+    (ho : S.off m = .ok o) (hs : S.setOff m { o with indentNonspace := x } = .ok S1) : BInv S1 :=
+  hI.setOff hs (off_ok ho) ((hI.table _ _ (off_ok ho)).indent x) rfl ((hI.ascii _ _ (off_ok ho)).indent x)
+
+theorem bqScan_np {test : Test} (ht : TestPure test) (hto : TestOK test) :
+    ∀ (fuel : Nat) (S : BState) (m : Nat) (old : List LineOffset) (le : Bool),
+      BInv S → NoPanic (bqScan test fuel S m old le) := by
+  intro fuel
+  induction fuel with
+  | zero => intro S m old le _ e h; simp [bqScan] at h; exact h.symm
+  | succ f ih =>
+    intro S m old le hI e h
+    simp only [bqScan] at h
+    crackE h
+    all_goals (have hm : m < S.offs.length := by have := hI.lineMax; omega)
+    · exact absurd_err h (lineIndent_total hm)
+    · exact absurd_err h (getLine_total hI.table hm)
+    · exact absurd_err h (off_total hm)
+    · rename_i hc _ ho
+      obtain ⟨rfl, _⟩ := hc
+      have ho' := off_ok ho
+      exact absurd_err h (bqRewrite_total (hI.table _ _ ho') (getLine_eq ho' ‹S.getLine m = _›))
+    · exact absurd_err h (setOff_total hm)
+    · rename_i hc _ ho _ hr _ hs
+      obtain ⟨rfl, _⟩ := hc
+      exact ih _ _ _ _ (bq_rewrite_step hI ho ‹S.getLine m = _› hr hs) e h
+    · exact hto _ (hI.bqLine m) (by simpa using ‹¬¬m < S.lineMax›) e h
+    · have e' := ht _ _ ‹test _ = _›
+      rw [e'] at h
+      exact absurd_err h (off_total hm)
+    · have e' := ht _ _ ‹test _ = _›
+      rw [e'] at h
+      exact absurd_err h (setOff_total hm)
+    · have e' := ht _ _ ‹test _ = _›
+      rw [e'] at h
+      exact absurd_err h (off_total hm)
+    · have e' := ht _ _ ‹test _ = _›
+      rw [e'] at h
+      exact absurd_err h (setOff_total hm)
+    · have e' := ht _ _ ‹test _ = _›
+      rename_i ho _ hs
+      rw [e'] at ho hs
+      exact ih _ _ _ _ (bq_indent_step (-1) (hI.bqLine m) ho hs) e h
+
+theorem bqScan_inv {test : Test} (ht : TestPure test) :
+    ∀ (fuel : Nat) (S : BState) (m : Nat) (old : List LineOffset) (le : Bool)
+      (n : Nat) (old' : List LineOffset) (S' : BState),
+      bqScan test fuel S m old le = .ok (n, old', S') → BInv S → BInv S' := by
+  intro fuel
+  induction fuel with
+  | zero => intro S m old le n old' S' h; simp [bqScan] at h
+  | succ f ih =>
+    intro S m old le n old' S' h hI
+    simp only [bqScan] at h
+    crack h
+    · exact hI
+    · exact hI
+    · rename_i hc _ ho _ hr _ hs
+      obtain ⟨rfl, _⟩ := hc
+      exact ih _ _ _ _ _ _ _ h (bq_rewrite_step hI ho ‹S.getLine m = _› hr hs)
+    · exact hI
+    · have e' := ht _ _ ‹test _ = _›
+      rename_i ho _ _ hs
+      rw [e'] at ho hs
+      exact bq_indent_step _ (hI.bqLine m) ho hs
+    · have e' := ht _ _ ‹test _ = _›
+      rw [e']
+      exact hI.bqLine m
+    · have e' := ht _ _ ‹test _ = _›
+      rename_i ho _ hs
+      rw [e'] at ho hs
+      exact ih _ _ _ _ _ _ _ h (bq_indent_step (-1) (hI.bqLine m) ho hs)
+
+
+/-! ## the rule -/
+
+/-- what the rule needs of the result of its scan -/
+theorem bq_scan_facts {test : Test} (ht : TestPure test) {fuel : Nat} {s : BState}
+    {r : Nat × List LineOffset × BState} (hI : BInv s) (hl : s.line < s.lineMax)
+    (hscan : bqScan test fuel s s.line [] false = .ok r) :
+    BInv r.2.2 ∧ s.line ≤ r.1 ∧ r.1 ≤ s.lineMax ∧ r.2.2.lineMax = s.lineMax ∧
+      r.2.2.offs.length = s.offs.length ∧ restoreOffs r.2.2.offs s.line r.2.1 = .ok s.offs := by
+  obtain ⟨n, old', S'⟩ := r
+  obtain ⟨hsb, hmn, hup, _, _, add, hadd, hrest⟩ := bqScan_spec ht _ _ _ _ _ _ _ _ hscan
+  simp only [List.nil_append] at hadd
+  subst hadd
+  exact ⟨bqScan_inv ht _ _ _ _ _ _ _ _ hscan hI, hmn, hup (Nat.le_of_lt hl), hsb.lineMax, hsb.len, hrest⟩
+
+/-- … and of the state the nested tokenizer hands back -/
+theorem bq_tok_facts {tok : Tok} {test : Test} (hk : TokSpec tok) (ht : TestPure test) {fuel : Nat}
+    {s s2 : BState} {r : Nat × List LineOffset × BState} (hI : BInv s) (hl : s.line < s.lineMax)
+    (hi : IndentOk s) {line : List Char} (hline : s.getLine s.line = .ok line)
+    (hhead : line.head? = some '>') (hscan : bqScan test fuel s s.line [] false = .ok r)
+    (htok : tok { r.2.2 with blkIndent := 0, nodeKind := .blockquote, children := [], line := s.line,
+                             lineMax := r.1, level := r.2.2.level + 1 } = .ok s2) :
+    s2.level = r.2.2.level + 1 ∧ s2.offs = r.2.2.offs ∧ s.line < s2.line ∧ s2.line ≤ r.1 := by
+  obtain ⟨hIS, hmn, _, _, _, _⟩ := bq_scan_facts ht hI hl hscan
+  obtain ⟨n, old', S'⟩ := r
+  obtain ⟨i, hi, hi0⟩ := hi
+  obtain ⟨hlt, o, ho, ho0⟩ := bqScan_first ht hscan hl hi hi0 hline hhead
+  have hfr := hk.frame _ _ htok
+  have hstrict := hk.strict _ _ htok (by simpa using hlt)
+    (Or.inr ⟨_, lineIndent_of_off ho, by simpa using ho0⟩)
+  have hupper := hk.upper _ _ htok (fun k o ho => hIS.table k o ho) (by simpa using hmn)
+  exact ⟨hfr.level, hfr.offs, hstrict, hupper⟩
+
+theorem blockquote_np {tok : Tok} {test : Test} (hk : TokSpec tok) (ht : TestPure test)
+    (hto : TestOK test) (hko : TokOK tok) {fuel : Nat} {s : BState} {silent : Bool}
+    (hI : BInv s) (hl : s.line < s.lineMax) (hi : silent = false → IndentOk s) :
+    NoPanic (blockquoteRule tok test fuel s silent) := by
+  intro e h
+  have hm : s.line < s.offs.length := Nat.lt_of_lt_of_le hl hI.lineMax
+  unfold blockquoteRule at h
+  crackE h
+  · exact absurd_err h (lineIndent_total hm)
+  · exact absurd_err h (getLine_total hI.table hm)
+  · exact bqScan_np ht hto _ _ _ _ _ hI e h
+  · -- the nested tokenizer
+    rename_i hscan
+    obtain ⟨hIS, _, hn, hmax, hlen, _⟩ := bq_scan_facts ht hI hl hscan
+    refine hko _ ?_ e h
+    refine hIS.congr rfl rfl ?_
+    have := hI.lineMax
+    simp only; omega
+  all_goals
+    have hsil : silent = false := by simpa using ‹¬silent = true›
+    have hhead : (‹List Char›).head? = some '>' := by simpa using ‹¬(_ : List Char).head? ≠ some '>'›
+  · -- `state.level -= 1`
+    rename_i hline _ _ _ hscan _ htok
+    obtain ⟨hlv, _⟩ := bq_tok_facts hk ht hI hl (hi hsil) hline hhead hscan htok
+    exact absurd_err h (psub_total (by omega))
+  · -- the swap loop
+    rename_i hline _ _ _ hscan _ htok _ _
+    obtain ⟨_, hoffs, _⟩ := bq_tok_facts hk ht hI hl (hi hsil) hline hhead hscan htok
+    obtain ⟨_, _, _, _, _, hrest⟩ := bq_scan_facts ht hI hl hscan
+    rw [hoffs] at h
+    exact absurd_err h ⟨_, hrest⟩
+  · -- `state.line - 1`
+    rename_i hline _ _ _ hscan _ htok _ _ _ _
+    obtain ⟨_, _, hlt, _⟩ := bq_tok_facts hk ht hI hl (hi hsil) hline hhead hscan htok
+    exact absurd_err h (psub_total (by omega))
+  · -- `get_map(start_line, state.line - 1)`
+    rename_i hline _ _ _ hscan _ htok _ _ _ hro _ he
+    obtain ⟨_, hoffs, hlt, hle⟩ := bq_tok_facts hk ht hI hl (hi hsil) hline hhead hscan htok
+    obtain ⟨_, _, hn, _, _, hrest⟩ := bq_scan_facts ht hI hl hscan
+    rw [hoffs, hrest] at hro
+    cases hro
+    obtain ⟨_, rfl⟩ := psub_ok he
+    have := hI.lineMax
+    exact absurd_err h (getMap_total (by omega) (by simp only; omega))
+
+
+/-! ## examples -/
+
+section examples
+
+/-- `">\tx"`: the marker splits a tab stop.  The tab behind the `>` (column 1) reaches column 4, so
+    `find_indent_of` answers 3 columns for ONE byte; the optional space takes one of them. -/
+example : bqRewrite ['>', '\t', 'x'] ⟨0, 3, 0, 0⟩ ['\t', 'x'] = .ok (⟨0, 3, 2, 2⟩, false) := by decide
+/-- `" >\tx"`: the tab (column 2) is two columns wide; one is left -/
+example : bqRewrite [' ', '>', '\t', 'x'] ⟨0, 4, 1, 1⟩ ['\t', 'x'] = .ok (⟨0, 4, 3, 1⟩, false) := by decide
+/-- `"  >\tx"`: the tab (column 3) is ONE column wide — the smallest width a blank can have; the
+    subtraction ends at 0 and does not underflow (`indentWidth_run_pos`) -/
+example : bqRewrite [' ', ' ', '>', '\t', 'x'] ⟨0, 5, 2, 2⟩ ['\t', 'x'] = .ok (⟨0, 5, 4, 0⟩, false) := by
+  decide
+/-- `">"`, `"> "`: nothing / only blanks behind the marker (`last_line_empty`) -/
+example : bqRewrite ['>'] ⟨0, 1, 0, 0⟩ [] = .ok (⟨0, 1, 1, 0⟩, true) := by decide
+example : bqRewrite ['>', ' '] ⟨0, 2, 0, 0⟩ [' '] = .ok (⟨0, 2, 2, 0⟩, true) := by decide
+
+/-- a nested tokenizer and a look-ahead that satisfy the four hypotheses of `blockquote_np` -/
+private def toyTok : Tok := fun s => .ok { s with line := max s.line s.lineMax }
+private def toyTest : Test := fun s => .ok (false, s)
+
+/-- non-vacuity: the hypotheses of `blockquote_np` are jointly satisfiable (on `">\tx"`, real mode) -/
+example : NoPanic (blockquoteRule toyTok toyTest 3 (BState.fresh ['>', '\t', 'x'] .root []) false) := by
+  refine blockquote_np ⟨?_, ?_, ?_, ?_⟩ ?_ ?_ ?_ (bInv_fresh _ _ _) (by decide +kernel) ?_
+  · intro s s' h; cases h; exact ⟨rfl, rfl, rfl, rfl, rfl, rfl, rfl⟩
+  · intro s s' h; cases h; exact Nat.le_max_left _ _
+  · intro s s' h _ hle; cases h; exact Nat.max_le.mpr ⟨hle, Nat.le_refl _⟩
+  · intro s s' h hlt _; cases h; exact Nat.lt_of_lt_of_le hlt (Nat.le_max_right _ _)
+  · intro s r h; cases h; rfl
+  · intro s _ _; exact .of_ok rfl
+  · intro s _; exact .of_ok rfl
+  · intro _; exact ⟨0, by decide +kernel, by decide⟩
+
+/-- … and with the model's own tokenizer / look-ahead the rule does answer on that state -/
+example : verdictLine (ruleAt exCfg 5 .blockquote (BState.fresh ['>', '\t', 'x'] .root []) false)
+    = some (true, 1) := by decide +kernel
+
+/-- `IndentOk` (which the tokenizer checks before it runs the chain: `if ind < 0 then .ok s`) is
+    necessary in real mode.  On an outdented first line (`blk_indent = 1`, an artificial state: `BInv`
+    does not read `blk_indent`) the scan stops AT the first line, the nested tokenizer gets an empty
+    range and `state.line - 1` underflows (first line of the document) … -/
+example : (ruleAt exCfg 5 .blockquote { BState.fresh ['>'] .root [] with blkIndent := 1 } false
+    matches .error .sub) = true := by decide +kernel
+/-- … or `get_map(start_line, start_line - 1)` trips its `debug_assert!` (any later line) -/
+example : (ruleAt exCfg 5 .blockquote
+    { BState.fresh ['a', '\n', '>'] .root [] with blkIndent := 1, line := 1 } false
+    matches .error .assert) = true := by decide +kernel
+
+end examples
 
 end MdIt.Block
